@@ -177,8 +177,24 @@ func compareRoundTrip(x, y poly.Sequence) []string {
 	return d
 }
 
+// earlier build outputs kept as returned (no copy) together with a copy of their content:
+// the text handed out for one record must not change when other records are written later.
+var c03Kept [][]byte
+var c03KeptCopy []string
+
 func c03Record(w *mon.W, id string, x poly.Sequence, origin string, tmp string, viaFile bool) {
 	rep := map[string]any{"origin": origin}
+	for i := range c03Kept {
+		w.Add("earlier_outputs_rechecked", 1)
+		if string(c03Kept[i]) != c03KeptCopy[i] {
+			w.Violation(id, "the text returned by an earlier genbank.Build call changed after other records were built (the returned slice is not owned by the caller)", rep)
+			c03Kept, c03KeptCopy = nil, nil
+			break
+		}
+	}
+	if len(c03Kept) >= 3 {
+		c03Kept, c03KeptCopy = c03Kept[1:], c03KeptCopy[1:]
+	}
 	var first []byte
 	var p string
 	// determinism: 20 builds
@@ -214,6 +230,7 @@ func c03Record(w *mon.W, id string, x poly.Sequence, origin string, tmp string, 
 		w.Add("determinism_rich_records", 1)
 	}
 	rep["built"] = clip(string(first), 6000)
+	c03Kept, c03KeptCopy = append(c03Kept, first), append(c03KeptCopy, string(first))
 	if len(distinct) > 1 {
 		w.Violation(id, fmt.Sprintf("genbank.Build wrote %d different texts in 20 calls on the same record (%s; %d features, %d extra keyword blocks)", len(distinct), origin, len(x.Features), len(x.Meta.Other)), rep)
 	}
